@@ -13,7 +13,8 @@ Inputs ==
   CASE Family = "binders" -> {IntV(0)}
     [] Family = "order" -> {IntV(0), Null}
     [] Family = "paths" -> {ArrV(<< ArrV(<< IntV(0) >>), IntV(1) >>),
-                            ObjV(<< << StrV(Ascii("a")), ArrV(<< IntV(0), Null >>) >> >>), IntV(0)}
+                            ObjV(<< << StrV(Ascii("a")), ArrV(<< IntV(0), Null >>) >> >>), IntV(0),
+                            ArrV(<< Null, ArrV(<< IntV(0) >>) >>)}
     [] Family = "streams" -> {IntV(0), ArrV(<< IntV(1), Null, IntV(2) >>)}
     [] Family = "rec" -> {Null}
     [] Family = "lazyp" -> {ArrV(<< ArrV(<< IntV(0) >>), IntV(1) >>)}
